@@ -351,15 +351,26 @@ func parseGroup(mp *msgParser, tags []Tag) {
 				fields = getGroupFields(mp.msg, searchTags, mp.appDataDictionary)
 				continue
 			}
-			if len(tags) > 1 {
-				searchTags = tags[:len(tags)-1]
+			// Did this tag occur after a nested group and belongs to an enclosing group.
+			belongsToEnclosingGroup := false
+			for enclosing := tags; len(enclosing) > 1; {
+				enclosing = enclosing[:len(enclosing)-1]
+				enclosingFields := getGroupFields(mp.msg, enclosing, mp.appDataDictionary)
+				if isGroupMember(mp.parsedFieldBytes.tag, enclosingFields) {
+					// Continue parsing the enclosing group.
+					tags, fields = enclosing, enclosingFields
+					belongsToEnclosingGroup = true
+					break
+				}
 			}
-			// Did this tag occur after a nested group and belongs to the parent group.
-			if isNumInGroupField(mp.msg, searchTags, mp.appDataDictionary) {
+			if belongsToEnclosingGroup {
 				// Add the field member to the group.
 				dm = append(dm, *mp.parsedFieldBytes)
-				// Continue parsing the parent group.
-				fields = getGroupFields(mp.msg, searchTags, mp.appDataDictionary)
+				if isNumInGroupField(mp.msg, append(tags, mp.parsedFieldBytes.tag), mp.appDataDictionary) {
+					// The member opens another nested group.
+					tags = append(tags, mp.parsedFieldBytes.tag)
+					fields = getGroupFields(mp.msg, tags, mp.appDataDictionary)
+				}
 				continue
 			}
 			// Add the repeating group.
